@@ -439,6 +439,9 @@ func depthClass(vals []string) string {
 	case "infinity":
 		return "inf"
 	}
+	if strings.EqualFold(vals[0], "infinity") {
+		return "infcase" // a case variant of the literal: refused, or answered as infinity
+	}
 	return "bad"
 }
 
